@@ -16,7 +16,7 @@ func init() {
 	register(&Property{
 		ID:      "C07",
 		NeedSSA: true,
-		Decided: "Structural necessary conditions: (hashdomain) for every physical kind the write side (splitBlockEncoding.Encode<K>, through its static callees) and the read side (Value.hash case K, through bloom.XXH64) reach xxhash functions of the same element width, and the bit-packed BOOLEAN page bytes never flow unmodified into a per-byte hash; (strategies) in flushFilterPages the `filter already filled` early exit is evaluated only for columns without a dictionary, the dictionary strategy is not chosen for a chunk that fell back to PLAIN, every non-copied column passes through flushFilterPages before its filter is written, and writeDataPage feeds the filter exactly for non-dictionary pages of a pre-sized filter; bloom filters are sized after buffered rows were flushed on the packing path; (check) CheckSplitBlock over decompressed bytes is given the length of those bytes; (own) bytes handed to a retained FileBloomFilter are allocated per filter; (header) the header written and the predicates that accept it name the same algorithm, hash and compression variants. (strategies, cont.) in flushFilterPages no sizing of the filter (which zeroes it) is reachable after an insertion, following constant boolean flags.",
+		Decided: "Structural necessary conditions: (hashdomain) for every physical kind the write side (splitBlockEncoding.Encode<K>, through its static callees) and the read side (Value.hash case K, through bloom.XXH64) reach xxhash functions of the same element width, and the bit-packed BOOLEAN page bytes never flow unmodified into a per-byte hash; (strategies) in flushFilterPages the `filter already filled` early exit is evaluated only for columns without a dictionary, the dictionary strategy is not chosen for a chunk that fell back to PLAIN, every non-copied column passes through flushFilterPages before its filter is written, and writeDataPage feeds the filter exactly for non-dictionary pages of a pre-sized filter; bloom filters are sized after buffered rows were flushed on the packing path; (check) CheckSplitBlock over decompressed bytes is given the length of those bytes; (own) bytes handed to a retained FileBloomFilter are allocated per filter; (header) the header written and the predicates that accept it name the same algorithm, hash and compression variants. (strategies, cont.) in flushFilterPages no sizing of the filter (which zeroes it) is reachable after an insertion, following constant boolean flags. (section) where io.NewSectionReader is given a bytes.Reader made from a slice in the same function, its length is the length of that very slice (the filter derives its block count from the section size).",
 		NotDecided: "the hash functions, block selection and masks themselves; the assembly kernels; filter sizing arithmetic; false-positive rates.",
 		Assumptions: []string{"xxhash defines MultiSum64Uint128 over 16-byte values equal to Sum64 over the same bytes (unit-tested upstream)"},
 		Run:         runC07,
@@ -27,6 +27,7 @@ func runC07(c *Ctx) {
 	c07HashDomain(c)
 	c07Strategies(c)
 	c07Check(c)
+	c07Section(c)
 }
 
 func xxhashWidth(name string) string {
@@ -470,4 +471,55 @@ func sameValue(a, b ssa.Value) bool {
 	}
 	ca, cb := cell(a), cell(b)
 	return ca != nil && ca == cb
+}
+
+// c07Section — a section over an in-memory reader spans what the reader
+// holds: where io.NewSectionReader is given a bytes.Reader made from slice X in
+// the same function, starting at 0, its length is len(X) — not the length of
+// another slice of the same type (the compressed bytes next to the
+// decompressed ones): the bloom filter derives its number of blocks from the
+// section size, and probes the wrong block when the size is another buffer's.
+func c07Section(c *Ctx) {
+	rule := "C07.section"
+	p := c.P
+	n := 0
+	for _, fn := range p.ModuleSSAFuncs() {
+		if fn.Origin() != nil || fn.Blocks == nil || !inModule(fn) {
+			continue
+		}
+		k := 0
+		allCalls(fn, false, func(_ *ssa.Function, call ssa.CallInstruction) {
+			if calleeName(call) != "io.NewSectionReader" {
+				return
+			}
+			args := call.Common().Args
+			var backing ssa.Value
+			for _, o := range Origins(args[0], OriginOpts{}) {
+				if o.Kind == OrgCall && calleeName(o.Call) == "bytes.NewReader" {
+					backing = o.Call.Common().Args[0]
+				}
+			}
+			if backing == nil {
+				return
+			}
+			n++
+			k++
+			ok := false
+			var got []string
+			for _, o := range Origins(args[2], OriginOpts{}) {
+				if o.Kind == OrgCall {
+					if lc, isCall := o.Call.(*ssa.Call); isCall {
+						if bi, isB := lc.Call.Value.(*ssa.Builtin); isB && bi.Name() == "len" {
+							got = append(got, describeValue(p, lc.Call.Args[0]))
+							if lc.Call.Args[0] == backing {
+								ok = true
+							}
+						}
+					}
+				}
+			}
+			c.Check(rule, FuncKey(fn)+" spans the whole in-memory reader#"+itoa(k), call.Pos(), ok, FuncKey(fn)+" makes a section over bytes.NewReader("+describeValue(p, backing)+") whose length is taken from "+strings.Join(got, ", ")+": the section is not the content of the reader; a bloom filter computes its block count from this size and probes the wrong blocks")
+		})
+	}
+	c.Min(rule, 2)
 }
